@@ -150,6 +150,7 @@ def cli_export(files: Dict[str, bytes], image_name: str, timeout: float = 120.0)
     d = tempfile.mkdtemp(dir=root)
     try:
         for name, data in files.items():
+            os.makedirs(os.path.dirname(os.path.join(d, name)), exist_ok=True)
             with open(os.path.join(d, name), "wb") as fh:
                 fh.write(data)
         dest = os.path.join(d, "dest")
@@ -186,6 +187,7 @@ def cli_ls(files: Dict[str, bytes], image_name: str, path: str = "", timeout: fl
     d = tempfile.mkdtemp(dir=root)
     try:
         for name, data in files.items():
+            os.makedirs(os.path.dirname(os.path.join(d, name)), exist_ok=True)
             with open(os.path.join(d, name), "wb") as fh:
                 fh.write(data)
         repo = os.environ.get("VERIF_REPO", "/repo")
